@@ -145,6 +145,9 @@ type scenario struct {
 	// SubjectAccessReview sent through the real cluster manager's ClientFor to the request's own cluster); the stubs answer the reviews:
 	// every stub authenticates any token as "user-of-stub<idx>" and allows every access review, naming itself
 	WebhookAuth bool `json:"webhookAuth,omitempty"`
+	// SarAuth: tokens are authenticated from the scenario's table, but impersonation is authorized by the gateway's REAL multi-cluster
+	// SubjectAccessReview authorizer (with its decision cache); the stubs answer the access reviews from the scenario's authz rules
+	SarAuth bool `json:"sarAuth,omitempty"`
 	TTLOkMs     int  `json:"ttlOkMs,omitempty"`
 	TTLFailMs   int  `json:"ttlFailMs,omitempty"`
 }
@@ -222,6 +225,17 @@ func (s *stub) ServeHTTP(rw http.ResponseWriter, r *http.Request) {
 			json.Unmarshal(body, &sar)
 			w.add(ev{"k": "review", "kind": "authz", "stub": s.idx, "key": sar.Spec.User})
 			sar.Status = authorizationv1.SubjectAccessReviewStatus{Allowed: true, Reason: fmt.Sprintf("allowed by stub%d", s.idx)}
+			if w.sc.SarAuth && sar.Spec.ResourceAttributes != nil {
+				a := sar.Spec.ResourceAttributes
+				d := w.sc.AuthzDefault
+				for _, r := range w.sc.Authz {
+					if r.Resource == a.Resource && (r.Name == "" || r.Name == a.Name) && (r.Sub == "" || r.Sub == a.Subresource) {
+						d = r.Decision
+						break
+					}
+				}
+				sar.Status = authorizationv1.SubjectAccessReviewStatus{Allowed: d == "allow", Denied: d != "allow", Reason: "scripted " + d}
+			}
 			b, _ := json.Marshal(sar)
 			rw.WriteHeader(201)
 			rw.Write(b)
@@ -599,6 +613,9 @@ func runScenario(t *testing.T, sc scenario) []ev {
 	cfg.Authorization.Authorizer = authz
 	if sc.WebhookAuth {
 		cfg.Authentication.Authenticator = bearertoken.New(tokenwebhook.NewMultiClusterTokenReviewAuthenticator(w.ctrl, time.Duration(sc.TTLOkMs)*time.Millisecond, time.Duration(sc.TTLFailMs)*time.Millisecond, nil))
+		cfg.Authorization.Authorizer = authzwebhook.NewMultiClusterSubjectAccessReviewAuthorizer(w.ctrl, time.Duration(sc.TTLOkMs)*time.Millisecond, time.Duration(sc.TTLFailMs)*time.Millisecond)
+	}
+	if sc.SarAuth {
 		cfg.Authorization.Authorizer = authzwebhook.NewMultiClusterSubjectAccessReviewAuthorizer(w.ctrl, time.Duration(sc.TTLOkMs)*time.Millisecond, time.Duration(sc.TTLFailMs)*time.Millisecond)
 	}
 	notProxied := http.HandlerFunc(func(rw http.ResponseWriter, r *http.Request) { rw.WriteHeader(404) })
